@@ -248,6 +248,8 @@ def check(report: Report, repo: Repo) -> None:
             try:
                 it2.events = []
                 got = it2.call_function(w, [a, b, c, ft, bt, *ea], dict(ek))
+                gsw = global_state_calls(it2.events)
+                report.add("R2-wrappers", f"{cons}::process-state", not gsw, f"{sname}: the quantised operation neither changes nor forks / restores a process-wide torch setting (RNG state included: a restored generator replays the same rounding bits at every matmul)", gsw, [], nontrivial=False)
                 exp = it2.call_function(ref, [k, a, b, c, ft, bt, q3, tuple(ea), dict(ek)], {})
             except Unsupported as ex:
                 report.add("R2-wrappers", cons, False if "unexpected keyword" in str(ex) or "too many positional" in str(ex) else None, f"{sname}: {ex}")
